@@ -9,6 +9,9 @@ from engine.driver import Cond, Run, ROOT, PY, _env, source_fingerprint
 from engine import hshim  # noqa: F401
 from engine.gre import to_re, Queries, NotRegular
 
+# shapes mixing a literal and a regex terminal with the SAME text (the printed form must keep the kind)
+KIND_SHAPES = ['<y> "." <y> | "*" r"." "*"', 'r"a+" "b" | "a+" "c"', '"[ab]" r"[ab]" "!"', 'rb"a?" b"a?" "."', 'r"x{2}" "x{2}" | "q"',
+               '"*" r"." "*" | <y> "." <y>', '"a+" "c" | r"a+" "b"']
 OPERANDS = ['"a"', '<x>', '("a" | "b")', '("a" "b")', 'b"\\xff"', '"\\xe9"', '(<x> "a" | "b")']
 OPS = ['*', '+', '?', '{2}', '{1,2}', '{2,}', '{,2}']
 CONTEXTS = ['{e}', '{e} "c"', '"c" {e}', '{e} | "c" "d"', '({e})?  "c"']
@@ -38,6 +41,8 @@ def shapes(tier, rnd):
     for i, e in enumerate(out):
         ctx = CONTEXTS[i % len(CONTEXTS)]
         specs.append(f"<start> ::= {ctx.format(e=e)}\n" + TAIL)
+    for e in KIND_SHAPES:
+        specs.append(f"<start> ::= {e}\n<y> ::= \"0\" | \"1\"\n" + TAIL)
     return specs
 
 
@@ -113,9 +118,44 @@ def run(tier):
     run.extra["solver_s"] = round(q.solver_s, 2)
     run.extra["programs"] = len(specs)
     run.extra["translator_validation_specs"] = validated
+    # ---- constraints: print -> re-read -> same verdicts -------------------------------------------------
+    import re as _re
+    import sys as _sys
+    _sys.path.insert(0, ROOT)
+    os.environ.setdefault("VERIF_NATIVE", "1")
+    from harness.r_cprint import probe
+    import importlib
+    hc = importlib.import_module("harness.h_constraints")
+    # classes of listed known findings (a constraint text matched by none of them is a new violation)
+    KNOWN_CLASSES = {
+        "C15-len-star": lambda t: ("len(*" in t) or ("|*" in t),
+        "C15-legacy-quantifier": lambda t: t.lstrip("( ").startswith(("forall ", "exists ")),
+        "C15-not-paren": lambda t: t.startswith("not ("),
+    }
+    active = {k["id"] for k in __import__("engine.driver").driver.load_known("C15")}
+    readable = []
+    for i, (text, _ref) in enumerate(hc.PROGRAMS):
+        r = probe(text)
+        if r["problem"] is None:
+            readable.append(i)
+            continue
+        cls = [k for k, pred in KNOWN_CLASSES.items() if pred(text) and k in active]
+        if cls:
+            run.extra.setdefault("known_finding_instances", []).append({"class": cls[0], "text": text, "printed": r["printed"]})
+            continue
+        d = os.path.join(__import__("engine.driver").driver.OUT, "replays", "C15")
+        os.makedirs(d, exist_ok=True)
+        path = os.path.join(d, f"constraint_{i}.json")
+        json.dump({"kind": "script", "script": "harness/r_cprint.py", "args": {"text": text}, "observed": r}, open(path, "w"), indent=1)
+        run.violations.append(path)
+        print(f"VIOLATION property=C15 replay={path}", flush=True)
+    run.extra["constraint_programs_probed"] = len(hc.PROGRAMS)
+    cconds = []
+    for i in (readable if tier != "quick" else [p for p in readable if p in (0, 6, 7, 10, 11, 17, 18, 23, 26, 34, 35, 36)]):
+        cconds.append(Cond("h_constraints.py", "print_roundtrip", 900 if tier == "quick" else 3000, env={"H_PROG": str(i), "H_R2": "2" if tier == "quick" else "3"}))
     # literal quoting (E1)
     to = 600 if tier == "quick" else 2400
-    run.run_conditions([
+    run.run_conditions(cconds + [
         Cond("h_quote.py", "str_roundtrip", to, twin="reach", env={"H_LEN": "2" if tier == "quick" else "3"}),
         Cond("h_quote.py", "bytes_roundtrip", to, env={"H_LEN": "2" if tier == "quick" else "3"}),
     ], conformance_harnesses=["h_quote.py"])
@@ -127,8 +167,9 @@ def run(tier):
     run.bounds = {"grammar shapes": f"{len(specs)} generated shapes: operators * + ? {{2}} {{1,2}} {{2,}} {{,2}} over terminal / nonterminal / grouped alternative / grouped "
                   "sequence / bytes / non-ASCII literal, nested to depth 2 (thorough: 3), in 5 contexts", "words": "ALL words (regular-language equality, no length bound)",
                   "literal quoting": "symbolic str / bytes of length <= 2 (3) over a 12-character alphabet incl. both quotes, backslash, newline, NUL, e-acute, euro"}
-    run.outside = ["constraint printing (string substitution over generated identifiers; re-reading needs the ANTLR front end on symbolic text)", "generators",
-                   "party annotations", "regex terminals", "recursive grammars (no regular encoding)", "bit terminals",
+    run.bounds["constraints"] = "the 38 constraint programs of the C07 family: printed with format_as_spec(), read back (concrete probe), and for those that read back the original and the re-read constraint agree on EVERY tree of the C07 bound (E1)"
+    run.bounds["regex vs literal"] = "7 shapes in which a literal and a regex terminal have the same text (regex subset translated to z3: literals, ., classes, ?, *, +, {m,n}, groups, |)"
+    run.outside = ["constraint PROGRAMS are a fixed list", "generators", "party annotations", "regex constructs outside the translated subset", "recursive grammars (no regular encoding)", "bit terminals",
                    "{n,} is printed with the current cap ({n,20}): same language only while MAX_REPETITIONS is unchanged"]
     run.assumptions = ["E3 translation (engine/gre.py), validated per run against Grammar.fuzz and Grammar.parse", "z3 5.1 sequence/regex theory",
                        "grammar shapes are enumerated, not solver variables"]
